@@ -217,6 +217,48 @@ fn run_cases(ctx: &Ctx, envir: &Envir, cases: &[Case]) {
     flush(&mut batch);
 }
 
+/// The same expressions observed through a macro argument (`ev <expr>` with body `.dq @0`): the
+/// argument is turned into text and parsed again, which must not change its value.
+fn run_cases_through_macro(ctx: &Ctx, envir: &Envir, cases: &[&Case]) {
+    let mut envir2 = Envir { prelude: format!("{}.macro ev\n\t.dq @0\n.endm\n", envir.prelude), epilogue: envir.epilogue.clone(), env: envir.env.clone(), syms: envir.syms.clone(), pc_base: envir.pc_base };
+    envir2.pc_base = envir.pc_base;
+    let usable: Vec<&&Case> = cases.iter().filter(|c| matches!(c.exp, Expected::Value(_)) && !c.text.to_lowercase().contains("pc") && !c.text.to_lowercase().contains("lbl_after")).collect();
+    for chunk in usable.chunks(24) {
+        let mut src = envir2.prelude.clone();
+        for c in chunk {
+            src.push_str("\tev ");
+            src.push_str(&c.text);
+            src.push('\n');
+        }
+        src.push_str(&envir2.epilogue);
+        let out = fw::build_str(&src);
+        ctx.eval(chunk.len() as u64);
+        ctx.count("expressions_through_macro_argument", chunk.len() as u64);
+        let ok = match &out {
+            Outcome::Ok(b) => chunk.iter().enumerate().all(|(i, c)| qword_at(&b.code, &envir2, i).map(|v| c.exp.accepts_value(v)).unwrap_or(false)),
+            _ => false,
+        };
+        if !ok {
+            // pinpoint
+            for c in chunk {
+                let src1 = format!("{}\tev {}\n{}", envir2.prelude, c.text, envir2.epilogue);
+                let o = fw::build_str(&src1);
+                let v = match &o {
+                    Outcome::Ok(b) => qword_at(&b.code, &envir2, 0),
+                    _ => None,
+                };
+                if let Some(aspect) = verdict(&c.exp, &o, v) {
+                    ctx.violation(
+                        format!("expr/macro-argument/{}/{}", c.e.root_name(), aspect),
+                        format!("`{}` passed as a macro argument: expected {:?}, observed {}", fw::clip(&c.text, 100), c.exp, match (&o, v) { (Outcome::Ok(_), Some(v)) => format!("{}", v), (o, _) => o.kind().to_string() }),
+                        json!({"source": src1, "expression": c.text, "expected": format!("{:?}", c.exp), "through_macro": true, "qword_word_addr": envir2.pc_base, "observed": o.brief()}),
+                    );
+                }
+            }
+        }
+    }
+}
+
 fn grid_values() -> Vec<i64> {
     vec![0, 1, -1, 2, -2, 7, 8, 63, 64, 255, 256, 1 << 15, 1 << 16, 1 << 31, 1 << 32, 1 << 62, i64::MAX, i64::MIN]
 }
@@ -408,6 +450,10 @@ pub fn run(ctx: &Ctx) -> i32 {
     for c in grid.iter().chain(pairs.iter()) {
         ctx.distinct(fw::hash_str(&c.text));
     }
+    // every operator pair again through a macro argument
+    let pair_refs: Vec<&Case> = pairs.iter().collect();
+    let pchunks: Vec<&[&Case]> = pair_refs.chunks(480).collect();
+    fw::par_items(&pchunks, |_, cs| run_cases_through_macro(ctx, &envir, cs));
     // random parts, generated per chunk on the worker threads
     let per = nrandom / chunks;
     let idx: Vec<u64> = (0..chunks as u64).collect();
@@ -426,11 +472,14 @@ pub fn run(ctx: &Ctx) -> i32 {
             }
         }
         run_cases(ctx, &envir, &cs);
+        // a quarter of the random trees also through a macro argument
+        let some: Vec<&Case> = cs.iter().step_by(4).collect();
+        run_cases_through_macro(ctx, &envir, &some);
     });
     ctx.put("environment", json!(envir.prelude.lines().collect::<Vec<_>>()));
     fw::finish(
         ctx,
-        "`.dq <expr>` observed in flash for (i) random expression trees over the 18 binary and 3 unary operators, 8 functions, literals in all spellings, .equ (chained, forward), .set, label and pc symbols, rendered with minimal parentheses and random blanks; (ii) the complete operator x boundary-operand grid (18 values squared, shift counts around 64, functions, literal range limits); (iii) every ordered pair of operators in both association shapes without redundant parentheses; distinct_nontrivial = distinct rendered expression texts; counters = operator occurrences in the random trees",
+        "`.dq <expr>` observed in flash for (i) random expression trees over the 18 binary and 3 unary operators, 8 functions, literals in all spellings, .equ (chained, forward), .set, label and pc symbols, rendered with minimal parentheses and random blanks; (ii) the complete operator x boundary-operand grid (18 values squared, shift counts around 64, functions, literal range limits); (iii) every ordered pair of operators in both association shapes without redundant parentheses; (iv) all of (iii) and a quarter of (i) again as the argument of a macro whose body is `.dq @0`; distinct_nontrivial = distinct rendered expression texts; counters = operator occurrences in the random trees",
         &[
             "refmodel/expr.rs (i128 evaluator, documented precedence table)",
             "tolerated because the statement is silent: `<<`/exp2 whose exact result leaves i64 and shift counts >= 64 may fail or give the low 64 bits; `>>` of a negative value may be arithmetic or logical; i64::MIN % -1 may fail or give 0; negative shift counts must fail",
@@ -446,6 +495,24 @@ fn count_ops(e: &E, m: &mut std::collections::BTreeMap<String, u64>) {
 }
 
 pub fn replay(ctx: &Ctx, case: &Value) -> i32 {
+    if case["through_macro"].as_bool() == Some(true) {
+        // stored program + expected set in debug form: only single values are replayable
+        let src = case["source"].as_str().unwrap_or("");
+        let out = fw::build_str(src);
+        ctx.eval(1);
+        ctx.distinct(1);
+        ctx.distinct(2);
+        let want = case["expected"].as_str().and_then(|e| e.strip_prefix("Value(")).and_then(|e| e.strip_suffix(')')).and_then(|e| e.parse::<i64>().ok());
+        let off = case["qword_word_addr"].as_u64().unwrap_or(0) as usize * 2;
+        let got = match &out {
+            Outcome::Ok(b) => b.code.get(off..off + 8).map(|x| i64::from_le_bytes(x.try_into().unwrap())),
+            _ => None,
+        };
+        if want.is_none() || got != want {
+            ctx.violation("expr/macro-argument/replay", format!("still deviates: {:?} vs {:?}", got, want), case.clone());
+        }
+        return fw::finish(ctx, "replay", &[]);
+    }
     // the replay file stores the literal program and the expected outcome set in debug form; the
     // verdict is recomputed from the stored expression by regenerating the case list
     let text = case["expression"].as_str().unwrap_or("");
